@@ -1,7 +1,7 @@
 (* Proofs/StructTop.v -- side conditions on the generated tables (Gen/StructTable.v) and the
    composition of the per-pass theorems. *)
 From TV Require Import Base.I32 Model.Structure Gen.StructTable
-  Proofs.StructBasics Proofs.StructRel Proofs.StructLoop Proofs.StructBreak Proofs.StructUnused.
+  Proofs.StructBasics Proofs.StructRel Proofs.StructLoop Proofs.StructBreak Proofs.StructUnused Proofs.StructIfElse.
 Open Scope nat_scope.
 
 (* ---- tie 1: what the theorems need from the current source ---- *)
@@ -87,4 +87,186 @@ Proof.
   eapply preserves_trans; [eapply preserves_trans; [exact H1|exact H2|]|exact H3|].
   - intros l. apply break_refs.
   - intros l Hl. unfold unused_pass in Hl. now rewrite unused_refs in Hl.
+Qed.
+
+(* ---- the cond-chain pass and the whole pipeline ---- *)
+
+Theorem ifelse_pass_preserves N G p :
+  negcmp_involutive N -> essential_guards G = true -> well_labelled p ->
+  preserves N true p (ifelse_pass N G p) /\ (forall l, In l (refs (ifelse_pass N G p)) -> In l (refs p)).
+Proof.
+  intros HN HG Hwl.
+  apply essential_split in HG as (G1 & _ & G3 & G4 & G5 & G6 & G7 & G8 & G9 & G10 & G11 & _).
+  destruct (ifelse_pass_canon N G p HN G1 G3 G4 G5 G6 G7 G8 G9 G10 G11 Hwl) as (H1 & H2 & H3 & H4).
+  split; [repeat split|]; auto.
+Qed.
+
+(* for a compiler that can lower the negation of every condition the cond-chain pass negates *)
+Theorem structure_canon_ideal N G f :
+  negcmp_involutive N -> essential_guards G = true -> is_flat f = true -> well_labelled f ->
+  preserves N true f (structure_with N G [PLoop; PIfElse; PBreak; PUnused] f).
+Proof.
+  intros HN HG Hflat Hwl. cbn [structure_with fold_left run_pass].
+  destruct (loop_pass_preserves N true G f HG Hflat Hwl) as [H1 _].
+  pose proof H1 as (Hw1 & _).
+  destruct (ifelse_pass_preserves N G _ HN HG Hw1) as [H2 R2]. pose proof H2 as (Hw2 & _).
+  pose proof (break_pass_preserves N true G _ HG Hw2) as H3. pose proof H3 as (Hw3 & _).
+  pose proof (unused_pass_preserves N true _ Hw3) as H4.
+  eapply preserves_trans; [eapply preserves_trans; [eapply preserves_trans; [exact H1|exact H2|]|exact H3|]|exact H4|].
+  - exact R2.
+  - intros l. apply break_refs.
+  - intros l Hl. unfold unused_pass in Hl. now rewrite unused_refs in Hl.
+Qed.
+
+(* truth's compiler: a cond block whose condition is a negated count jump does not compile, so its canonical
+   stream keeps the `unless`; without such blocks both settings agree *)
+Lemma chain_cat_ext2 {B} advb (g g' : state -> list stmt -> list B) hd hd' tl en st bs :
+  Forall (fun cb => (forall st, g st (snd cb) = g' st (snd cb)) /\ (forall st t, hd st (fst cb) t = hd' st (fst cb) t)) bs ->
+  chain_cat advb g hd tl en st bs = chain_cat advb g' hd' tl en st bs.
+Proof.
+  intros H; revert st; induction H as [|[c b] t [Hg Hh] _ IH]; intros st; cbn; auto.
+  cbn in Hg, Hh. now rewrite Hg, Hh, IH.
+Qed.
+
+Lemma sem_cnt_irrel_s N E s : no_cnt_chain_s s = true ->
+  forall brk st, sem_s N false E brk st s = sem_s N true E brk st s.
+Proof.
+  induction s using stmt_ind2; intros Hok brk st; cbn in *; try reflexivity.
+  - f_equal. apply cat_l_ext. rewrite forallb_forall in Hok. rewrite Forall_forall in *. intros x Hx st'. apply H; auto.
+  - apply andb_true_iff in Hok as [Hbs Hels]. f_equal.
+    + apply chain_cat_ext2. rewrite forallb_forall in Hbs. rewrite Forall_forall in *. intros cb Hcb.
+      specialize (Hbs cb Hcb). apply andb_true_iff in Hbs as [Hc Hb]. split.
+      * intros st'. apply cat_l_ext. specialize (H cb Hcb). rewrite forallb_forall in Hb. rewrite Forall_forall in *.
+        intros x Hx st''. apply H; auto.
+      * intros st' t. destruct (fst cb); try discriminate; reflexivity.
+    + destruct els as [b|]; [|reflexivity]. apply cat_l_ext. rewrite forallb_forall in Hels. rewrite Forall_forall in *.
+      intros x Hx st'. apply H0; auto.
+Qed.
+
+Lemma canon_cnt_irrel N p : no_cnt_chain p = true -> canon_of N false p = canon_of N true p.
+Proof.
+  intros H. unfold canon_of. apply cat_l_ext. unfold no_cnt_chain in H. rewrite forallb_forall in H.
+  rewrite Forall_forall. intros x Hx st. apply sem_cnt_irrel_s; auto.
+Qed.
+
+Lemma flat_no_cnt f : is_flat f = true -> no_cnt_chain f = true.
+Proof.
+  unfold is_flat, no_cnt_chain. rewrite !forallb_forall. intros H x Hx. specialize (H x Hx).
+  destruct x; try reflexivity; discriminate.
+Qed.
+
+Theorem structure_canon N G f :
+  negcmp_involutive N -> essential_guards G = true -> is_flat f = true -> well_labelled f ->
+  let s := structure_with N G [PLoop; PIfElse; PBreak; PUnused] f in
+  no_cnt_chain s = true ->
+  well_labelled s /\ canon_of N false s = canon_of N false f /\
+  (forall l, In l (refs s) -> lookup (lenv st0 s) l = lookup (lenv st0 f) l).
+Proof.
+  intros HN HG Hflat Hwl s Hcnt.
+  destruct (structure_canon_ideal N G f HN HG Hflat Hwl) as (Hw & Hc & Hl). fold s in Hw, Hc, Hl.
+  repeat split; auto.
+  rewrite (canon_cnt_irrel N s Hcnt), (canon_cnt_irrel N f (flat_no_cnt f Hflat)). exact Hc.
+Qed.
+
+(* ---- decidable well-labelledness (for examples) and the corollaries named after the property text ---- *)
+
+Fixpoint nodupb (l : list nat) : bool :=
+  match l with [] => true | x :: t => negb (existsb (Nat.eqb x) t) && nodupb t end.
+Lemma nodupb_NoDup l : nodupb l = true -> NoDup l.
+Proof.
+  induction l as [|x t IH]; cbn; intros H; constructor; apply andb_true_iff in H as [Hx Ht]; auto.
+  intros Hin. apply negb_true_iff in Hx. assert (existsb (Nat.eqb x) t = true); [|congruence].
+  apply existsb_exists. exists x. split; auto. apply Nat.eqb_refl.
+Qed.
+Definition well_labelledb (p : list stmt) : bool := nodupb (map fst (lenv st0 p)).
+Lemma well_labelledb_ok p : well_labelledb p = true -> well_labelled p.
+Proof. apply nodupb_NoDup. Qed.
+
+Definition explicit_time (it : citem) : option Z := match snd it with BJump _ _ e => e | _ => None end.
+Definition item_time (it : citem) : Z := fst (fst it).
+
+(* ---- instances for the generated tables ---- *)
+
+Definition gstructure (f : list stmt) : list stmt := structure_with gen_negcmp gen_guards gen_pass_order f.
+
+Lemma gstructure_eq f : gstructure f = structure_with gen_negcmp gen_guards [PLoop; PIfElse; PBreak; PUnused] f.
+Proof. unfold gstructure. now rewrite gen_pass_order_ok. Qed.
+
+Theorem C07_full_proof :
+  forall f, is_flat f = true -> well_labelled f -> no_cnt_chain (gstructure f) = true ->
+  canon_of gen_negcmp false (gstructure f) = canon_of gen_negcmp false f.
+Proof.
+  intros f Hf Hw Hc. rewrite gstructure_eq in *.
+  exact (proj1 (proj2 (structure_canon gen_negcmp gen_guards f gen_negcmp_involutive gen_guards_essential Hf Hw Hc))).
+Qed.
+
+Theorem referenced_labels_keep_position_and_time :
+  forall f, is_flat f = true -> well_labelled f -> no_cnt_chain (gstructure f) = true ->
+  forall l, In l (refs (gstructure f)) -> lookup (lenv st0 (gstructure f)) l = lookup (lenv st0 f) l.
+Proof.
+  intros f Hf Hw Hc. rewrite gstructure_eq in *.
+  exact (proj2 (proj2 (structure_canon gen_negcmp gen_guards f gen_negcmp_involutive gen_guards_essential Hf Hw Hc))).
+Qed.
+
+Theorem explicit_time_jumps_untouched :
+  forall f, is_flat f = true -> well_labelled f -> no_cnt_chain (gstructure f) = true ->
+  map explicit_time (canon_of gen_negcmp false (gstructure f)) = map explicit_time (canon_of gen_negcmp false f).
+Proof. intros f Hf Hw Hc. now rewrite (C07_full_proof f Hf Hw Hc). Qed.
+
+Theorem time_labels_unchanged :
+  forall f, is_flat f = true -> well_labelled f -> no_cnt_chain (gstructure f) = true ->
+  map item_time (canon_of gen_negcmp false (gstructure f)) = map item_time (canon_of gen_negcmp false f).
+Proof. intros f Hf Hw Hc. now rewrite (C07_full_proof f Hf Hw Hc). Qed.
+
+Theorem loop_pass_gen : forall f, is_flat f = true -> well_labelled f ->
+  well_labelled (loop_pass gen_guards f) /\ canon_of gen_negcmp false (loop_pass gen_guards f) = canon_of gen_negcmp false f.
+Proof.
+  intros f Hf Hw. destruct (loop_pass_preserves gen_negcmp false gen_guards f gen_guards_essential Hf Hw) as ((H1 & H2 & _) & _). auto.
+Qed.
+Theorem break_pass_gen : forall p, well_labelled p ->
+  well_labelled (break_pass gen_guards p) /\ canon_of gen_negcmp false (break_pass gen_guards p) = canon_of gen_negcmp false p.
+Proof. intros p Hw. destruct (break_pass_preserves gen_negcmp false gen_guards p gen_guards_essential Hw) as (H1 & H2 & _). auto. Qed.
+Theorem unused_pass_gen : forall p, well_labelled p ->
+  well_labelled (unused_pass p) /\ canon_of gen_negcmp false (unused_pass p) = canon_of gen_negcmp false p.
+Proof. intros p Hw. destruct (unused_pass_preserves gen_negcmp false p Hw) as (H1 & H2 & _). auto. Qed.
+Theorem ifelse_pass_gen : forall p, well_labelled p ->
+  well_labelled (ifelse_pass gen_negcmp gen_guards p) /\
+  canon_of gen_negcmp true (ifelse_pass gen_negcmp gen_guards p) = canon_of gen_negcmp true p.
+Proof.
+  intros p Hw. destruct (ifelse_pass_preserves gen_negcmp gen_guards p gen_negcmp_involutive gen_guards_essential Hw) as ((H1 & H2 & _) & _). auto.
+Qed.
+
+(* the recorded defect, on the smallest input (findings: c07-count-jump-negation) *)
+Definition count_jump_stream : list stmt :=
+  [SNo; SJump None (JC (CCnt Gt 0 1)) 0 None; SIns None 0 []; SLabel 0; SIns None 1 []; SNo].
+Theorem count_jump_negation_refuted :
+  g_if_cnt gen_guards = false ->     (* as long as the source does not exclude count jumps from cond chains *)
+  exists f, is_flat f = true /\ well_labelled f /\ canon_of gen_negcmp false (gstructure f) <> canon_of gen_negcmp false f.
+Proof.
+  intros Hflag. vm_compute in Hflag.
+  first [ discriminate Hflag
+        | exists count_jump_stream; split; [reflexivity|]; split; [apply well_labelledb_ok; reflexivity|];
+          vm_compute; discriminate ].
+Qed.
+
+(* a non-trivial instance of the hypotheses *)
+Definition example_stream : list stmt :=
+  [SNo; SIns None 0 []; SLabel 0;
+   SJump None (JC (CBin Ne 0 1)) 1 None; SIns None 1 []; STime false 5; SJump None JU 2 None;
+   SLabel 1; SIns None 2 []; SJump None (JC (CBin Eq 2 3)) 3 None;
+   SLabel 2; SIns None 3 []; SJump None (JC (COther 4)) 0 None;
+   SLabel 3; SIns None 4 []; SJump None JU 0 (Some 7%Z); SNo].
+Definition example_structured : list stmt :=
+  [SNo; SIns None 0 []; SLabel 0;
+   SLoop (JC (COther 4))
+     [SNo;
+      SChain [(CBin Eq 0 1, [SNo; SIns None 1 []; STime false 5; SNo])]
+             (Some [SNo; SIns None 2 []; SBreak None (JC (CBin Eq 2 3)); SNo]);
+      SIns None 3 []; SNo];
+   SIns None 4 []; SJump None JU 0 (Some 7%Z); SNo].
+Lemma example_ok :
+  is_flat example_stream = true /\ well_labelled example_stream /\ no_cnt_chain (gstructure example_stream) = true /\
+  gstructure example_stream = example_structured.
+Proof.
+  split; [reflexivity|]. split; [apply well_labelledb_ok; reflexivity|]. split; vm_compute; reflexivity.
 Qed.
